@@ -1066,6 +1066,37 @@ impl World {
                     let _ = src_dom.clone_multiple_into_external(&[existing, missing], &mut scratch);
                 });
                 ctx.label_if(r.is_err(), "clone_of_missing_referent_panicked_elsewhere");
+                // the other documented panics, likewise on throw-away DOMs: whatever an operation
+                // stages before it panics must not reach a later, valid call on this thread
+                let tree = || InstanceBuilder::new("Folder").with_name("ghost").with_child(InstanceBuilder::new("Part").with_name("ghost-child").with_child(InstanceBuilder::new("Part").with_name("ghost-grandchild")));
+                let mut panicked = 0;
+                for kind in 0..6 {
+                    let r = crate::engine::catch(|| {
+                        let mut scratch = WeakDom::new(InstanceBuilder::new("Folder").with_child(tree()));
+                        let mut other = WeakDom::new(InstanceBuilder::new("Folder"));
+                        let child = scratch.root().children()[0];
+                        match kind {
+                            0 => {
+                                scratch.insert(missing, tree());
+                            }
+                            1 => scratch.destroy(missing),
+                            2 => {
+                                let to = scratch.root_ref();
+                                scratch.transfer_within(missing, to)
+                            }
+                            3 => scratch.transfer_within(child, missing),
+                            4 => {
+                                let to = other.root_ref();
+                                scratch.transfer(missing, &mut other, to)
+                            }
+                            _ => scratch.transfer(child, &mut other, missing),
+                        }
+                    });
+                    if r.is_err() {
+                        panicked += 1;
+                    }
+                }
+                ctx.label_if(panicked > 0, "other_operations_panicked_elsewhere");
             }
             Op::PartialWalk { dom, node, steps } => {
                 let d = *dom as usize % nd;
